@@ -11,11 +11,6 @@ order* as the specification; what the operations compute on doubles is the Go ru
 namespace XPathV.Theorems.C08
 open XPathV XPathV.Model XPathV.Facts NumAlg
 
-/-- T0: `mod` no longer goes through `int` (the pinned `float64(int(a) % int(b))`), and the numeric
-operators are wired to the expected functions -/
-theorem numeric_ops_ok : Generated.modUsesIntConversion = false ∧
-    Generated.numericOpFuncs = [("+", "plusFunc"), ("-", "minusFunc"), ("*", "mulFunc"), ("div", "divFunc"), ("mod", "modFunc")] := by decide
-
 variable {F : Type} [NumAlg F]
 
 /-- embedding of spec values into model values -/
@@ -61,10 +56,5 @@ theorem number_to_string_spec (d : Doc) (x : F) : asStringM d (.num x) = .ok (Sp
 theorem count_spec (d : Doc) (cfg : ECfg) (c : Ref) (l : List Ref) :
     callFn (F := F) d cfg "count" .nil c [.ok (.nodes l)] none = .ok (.num (ofNat l.length)) := by
   simp [callFn, bind, Except.bind]
-
-/-- T0: `mod` is `math.Mod`, the number rendering arm of `asString` is the XPath one -/
-theorem numeric_sources_ok : Generated.modCallbackSrc = "math.Mod(a,b)" ∧
-    Generated.asStringFloatSrc = "switch{casemath.IsNaN(v):return\"NaN\"casemath.IsInf(v,1):return\"Infinity\"casemath.IsInf(v,-1):return\"-Infinity\"casev==0:return\"0\"};returnstrconv.FormatFloat(v,'f',-1,64)" :=
-  ⟨rfl, rfl⟩
 
 end XPathV.Theorems.C08
